@@ -29,34 +29,6 @@ import (
 )
 
 // ---------------------------------------------------------------------------
-// Steering constants: defects owned by other groups (DESIGN.md §5). Each one
-// removes exactly the failure shape of that defect from the generator; set to
-// false once the owner's fix is in the tree.
-const (
-	// D22 (gT): Clear() on a time field without standard view is a no-op.
-	vc8SteerD22 = true
-	// D17 (gQ1): Min/Max count on ties across shards depends on arrival order.
-	vc8SteerD17 = true
-	// D14 (gF): TopN counts go stale when a row's count drops (rank cache ignores counts below
-	// its threshold, incl. 0) or is changed by a roaring import: after Clear / clear-imports /
-	// roaring imports / Store / ClearRow, and after any write to a mutex field (which clears
-	// the column's other row). TopN(ids) is only probed on fields that never lost a bit.
-	vc8SteerD14 = true
-	// D15 (gF): a mutex/bool import batch that repeats a column keeps the wrong row.
-	vc8SteerD15 = true
-	// D16 (gQ1): range predicates at or below the bit-depth minimum are mis-evaluated.
-	vc8SteerD16 = true
-	// D25 (gP): non-ASCII text in PQL is mis-parsed; such keys are only used through Import.
-	vc8SteerD25 = true
-	// C14 domain (reported to gQ1): fragment.rangeLT/rangeGT mis-handle predicates around 0
-	// (f < -1 includes -1 and 0; f > -1 misses 0 and 1; f < 0 includes 0). The answers of
-	// <, <=, >, >= are therefore only compared before/after the restart, not with the model.
-	vc8RangeOpsAgainstModel = false
-	// C14 domain (reported to gQ1): Min/Max of a field whose extreme is 0 report count 0.
-	vc8SteerMinMaxZeroCount = true
-)
-
-// ---------------------------------------------------------------------------
 // model
 
 type vc8Field struct {
@@ -73,7 +45,6 @@ type vc8Field struct {
 	tv       map[string]map[string]map[string]bool // time view suffix -> row -> cols
 	vals     map[string]int64                      // int: col -> value
 	rowAttrs map[string]map[string]interface{}
-	topnOK   bool
 	rowPool  []string
 }
 
@@ -141,9 +112,8 @@ var vc8IntBounds = [][2]int64{{0, 0}, {-10, 10}, {5, 100}, {-100, -5}, {0, 1 << 
 var vc8Quanta = []string{"Y", "YM", "YMD", "YMDH", "M", "MD", "MDH", "D", "DH", "H"}
 var vc8ColIDs = []uint64{0, 1, 65535, 65536, vc8SW - 1, vc8SW, vc8SW + 1, 2*vc8SW - 1, 3*vc8SW + 5}
 var vc8RowIDs = []uint64{0, 1, 2, 3, 7, 100, 1000}
-var vc8ColKeys = []string{"a", "b", "c", "k1", "x-y", "col_9", "Zed"}
-var vc8ColKeysImportOnly = []string{"ünï", "käse,1", "sp ace"}
-var vc8RowKeys = []string{"r1", "r2", "alpha", "B", "row-5", "z_9"}
+var vc8ColKeysAll = []string{"a", "b", "c", "k1", "x-y", "col_9", "Zed", "ünï", "käse,1", "sp ace"}
+var vc8RowKeys = []string{"r1", "r2", "alpha", "B", "row-5", "z_9", "zeile ü"}
 var vc8Times = []time.Time{
 	time.Date(2018, 12, 31, 23, 0, 0, 0, time.UTC),
 	time.Date(2019, 1, 1, 0, 0, 0, 0, time.UTC),
@@ -191,7 +161,7 @@ func vc8viewRange(s string) (time.Time, time.Time) {
 
 func vc8genField(t *rapid.T, name string, idx *vc8Index) *vc8Field {
 	f := &vc8Field{Name: name, bits: map[string]map[string]bool{}, tv: map[string]map[string]map[string]bool{},
-		vals: map[string]int64{}, rowAttrs: map[string]map[string]interface{}{}, topnOK: true}
+		vals: map[string]int64{}, rowAttrs: map[string]map[string]interface{}{}}
 	f.Typ = rapid.SampledFrom([]string{"set", "set", "mutex", "bool", "int", "int", "time", "time"}).Draw(t, "ftype")
 	switch f.Typ {
 	case "set", "mutex":
@@ -323,11 +293,7 @@ func (c *vc8Case) touch(idx *vc8Index, col string) {
 
 func (c *vc8Case) drawCol(idx *vc8Index, label string, importPath bool) string {
 	if idx.Keys {
-		pool := vc8ColKeys
-		if importPath || !vc8SteerD25 {
-			pool = append(append([]string{}, vc8ColKeys...), vc8ColKeysImportOnly...)
-		}
-		return rapid.SampledFrom(pool).Draw(c.t, label)
+		return rapid.SampledFrom(vc8ColKeysAll).Draw(c.t, label)
 	}
 	if rapid.IntRange(0, 5).Draw(c.t, label+"rnd") == 0 {
 		return strconv.FormatUint(rapid.Uint64Range(0, 4*vc8SW-1).Draw(c.t, label), 10)
@@ -509,15 +475,10 @@ func (c *vc8Case) step(i int) {
 			return
 		}
 		f := bitFields[rapid.IntRange(0, len(bitFields)-1).Draw(t, "f")]
-		if f.Typ == "time" && f.NoStd && vc8SteerD22 {
-			vkit.Excluded("D22")
-			return
-		}
 		col := c.drawCol(idx, "col", false)
 		row := rapid.SampledFrom(f.rowPool).Draw(t, "row")
 		q := fmt.Sprintf("Clear(%s, %s=%s)", vc8colLit(idx, col), f.Name, vc8rowLit(f, row))
 		c.query(idx, q)
-		f.topnOK = f.topnOK && !vc8SteerD14
 		c.applyClearBit(f, row, col)
 		c.touch(idx, col)
 		c.logf("%s: %s", idx.Name, q)
@@ -533,14 +494,16 @@ func (c *vc8Case) step(i int) {
 		for _, v := range f.tv {
 			delete(v, row)
 		}
-		f.topnOK = f.topnOK && !vc8SteerD14
 		c.logf("%s: %s", idx.Name, q)
 		c.cls["clearRow"] = true
 	case "store":
-		// Store() into a keyed field is not translated (the row key reaches UintArg as a
-		// string) and the error path panics in executeSetRow (result.(bool) on nil):
-		// C15/C06 domain, reported; destinations are unkeyed fields.
-		dsts := c.fieldsOf(idx, func(f *vc8Field) bool { return f.Typ == "set" && !f.Keys })
+		// Open finding DS6: Store() into a keyed field panics in executeSetRow. While its
+		// witness still fails, destinations are unkeyed fields.
+		ds6 := vkit.Open("DS6")
+		dsts := c.fieldsOf(idx, func(f *vc8Field) bool { return f.Typ == "set" && !(ds6 && f.Keys) })
+		if ds6 {
+			vkit.Excluded("DS6")
+		}
 		srcs := c.fieldsOf(idx, func(f *vc8Field) bool { return f.Typ != "int" && !f.NoStd })
 		if len(dsts) == 0 || len(srcs) == 0 {
 			return
@@ -561,7 +524,6 @@ func (c *vc8Case) step(i int) {
 		// an index without available shards executes on shard 0 (and creates that
 		// fragment); "touched" is an upper bound, so shard 0 is always added
 		idx.touched[0] = true
-		dst.topnOK = dst.topnOK && !vc8SteerD14
 		c.logf("%s: %s", idx.Name, q)
 		c.cls["store"] = true
 	case "import", "importClear":
@@ -579,14 +541,8 @@ func (c *vc8Case) step(i int) {
 			ts       *time.Time
 		}
 		var bits []bit
-		seenCol := map[string]bool{}
 		for k := 0; k < n; k++ {
 			b := bit{row: rapid.SampledFrom(f.rowPool).Draw(t, "row"), col: c.drawCol(idx, "col", true)}
-			if (f.Typ == "mutex" || f.Typ == "bool") && seenCol[b.col] && vc8SteerD15 {
-				vkit.Excluded("D15")
-				continue
-			}
-			seenCol[b.col] = true
 			if f.Typ == "time" && (f.NoStd || rapid.Bool().Draw(t, "withTS")) {
 				x := rapid.SampledFrom(vc8Times).Draw(t, "ts")
 				b.ts = &x
@@ -658,7 +614,6 @@ func (c *vc8Case) step(i int) {
 			}
 		}
 		if clear {
-			f.topnOK = f.topnOK && !vc8SteerD14
 			c.cls["import-clear"] = true
 		}
 		c.cls["import"] = true
@@ -771,7 +726,6 @@ func (c *vc8Case) step(i int) {
 			}
 		}
 		idx.touched[shard] = true
-		f.topnOK = f.topnOK && !vc8SteerD14
 		c.cls["importRoaring"] = true
 	case "rowAttrs":
 		fs := c.fieldsOf(idx, func(f *vc8Field) bool { return f.Typ == "set" || f.Typ == "mutex" || f.Typ == "time" })
@@ -954,7 +908,7 @@ func (c *vc8Case) battery() []vc8Probe {
 		}
 		// key translation, forward direction
 		if idx.Keys {
-			keys := append(append([]string{}, vc8ColKeys...), vc8ColKeysImportOnly...)
+			keys := append([]string{}, vc8ColKeysAll...)
 			var used []string
 			for _, k := range keys {
 				if c.colUsed(idx, k) {
@@ -1140,12 +1094,7 @@ func (c *vc8Case) fieldBattery(idx *vc8Index, f *vc8Field) []vc8Probe {
 			ps = append(ps, c.probeRow(idx, fmt.Sprintf("Row(%s=%s)", f.Name, vc8rowLit(f, row)), f.bits[row], f.rowAttrs[row], withAttrs))
 		}
 	}
-	if !f.NoStd && f.Typ == "bool" {
-		// Rows(<bool field>) fails with "missing bool argument" (key translation of
-		// the call expects a bool row argument): outside C08, reported to the C16 owner.
-		vkit.Count("steered:Rows-on-bool-field", 1)
-	}
-	if !f.NoStd && f.Typ != "bool" {
+	if !f.NoStd {
 		// Rows(f)
 		resp := c.query(idx, fmt.Sprintf("Rows(%s)", f.Name))
 		ri, ok := resp.Results[0].(pilosa.RowIdentifiers)
@@ -1198,7 +1147,7 @@ func (c *vc8Case) fieldBattery(idx *vc8Index, f *vc8Field) []vc8Probe {
 			ps = append(ps, vc8Probe{desc: fmt.Sprintf("%s: columnAttrs of Row(%s=%s)", idx.Name, f.Name, row), got: "ca=" + strings.Join(gotA, "|"), want: "ca=" + strings.Join(wantA, "|")})
 		}
 		// TopN with explicit ids: exact counts
-		if (f.Typ == "set" || f.Typ == "mutex" && !vc8SteerD14) && f.CacheType != "none" && f.topnOK && !f.Keys {
+		if (f.Typ == "set" || f.Typ == "mutex") && f.CacheType != "none" && !f.Keys {
 			ids := strings.Join(f.rowPool, ",")
 			resp := c.query(idx, fmt.Sprintf("TopN(%s, ids=[%s])", f.Name, ids))
 			pairs, ok := resp.Results[0].([]pilosa.Pair)
@@ -1217,10 +1166,6 @@ func (c *vc8Case) fieldBattery(idx *vc8Index, f *vc8Field) []vc8Probe {
 			sort.Strings(got)
 			sort.Strings(want)
 			ps = append(ps, vc8Probe{desc: fmt.Sprintf("%s: TopN(%s, ids=[%s])", idx.Name, f.Name, ids), got: "topn=" + strings.Join(got, ","), want: "topn=" + strings.Join(want, ",")})
-		} else if f.Typ == "set" || f.Typ == "mutex" {
-			if !f.topnOK || f.Typ == "mutex" {
-				vkit.Excluded("D14")
-			}
 		}
 	}
 	// time views: one single-unit range per existing view, all rows
@@ -1304,7 +1249,6 @@ func (c *vc8Case) intBattery(idx *vc8Index, f *vc8Field) []vc8Probe {
 	var sum int64
 	first := true
 	var mn, mx int64
-	shardsWith := map[uint64]bool{}
 	for col, v := range f.vals {
 		cols[col] = true
 		sum += v
@@ -1315,12 +1259,6 @@ func (c *vc8Case) intBattery(idx *vc8Index, f *vc8Field) []vc8Probe {
 			mx = v
 		}
 		first = false
-		if !idx.Keys {
-			cv, _ := strconv.ParseUint(col, 10, 64)
-			shardsWith[cv/vc8SW] = true
-		} else {
-			shardsWith[0] = true
-		}
 	}
 	ps = append(ps, c.probeRow(idx, fmt.Sprintf("Row(%s != null)", f.Name), cols, nil, false))
 	vcs := func(q string) pilosa.ValCount {
@@ -1348,15 +1286,7 @@ func (c *vc8Case) intBattery(idx *vc8Index, f *vc8Field) []vc8Probe {
 		if len(f.vals) == 0 {
 			wantV = 0
 		}
-		if vc8SteerMinMaxZeroCount && wantV == 0 {
-			vkit.Count("steered:minmax-zero-count", 1)
-			ps = append(ps, vc8Probe{desc: fmt.Sprintf("%s: %s(field=%s).value", idx.Name, fn, f.Name), got: fmt.Sprint(vc.Val), want: fmt.Sprint(wantV)})
-		} else if vc8SteerD17 && len(shardsWith) > 1 {
-			vkit.Excluded("D17")
-			ps = append(ps, vc8Probe{desc: fmt.Sprintf("%s: %s(field=%s).value", idx.Name, fn, f.Name), got: fmt.Sprint(vc.Val), want: fmt.Sprint(wantV)})
-		} else {
-			ps = append(ps, vc8Probe{desc: fmt.Sprintf("%s: %s(field=%s)", idx.Name, fn, f.Name), got: fmt.Sprintf("%d/%d", vc.Val, vc.Count), want: fmt.Sprintf("%d/%d", wantV, n)})
-		}
+		ps = append(ps, vc8Probe{desc: fmt.Sprintf("%s: %s(field=%s)", idx.Name, fn, f.Name), got: fmt.Sprintf("%d/%d", vc.Val, vc.Count), want: fmt.Sprintf("%d/%d", wantV, n)})
 	}
 	// predicates on every stored value
 	distinct := map[int64]bool{}
@@ -1376,14 +1306,9 @@ func (c *vc8Case) intBattery(idx *vc8Index, f *vc8Field) []vc8Probe {
 			sym string
 			fn  func(v int64) bool
 		}
-		ops := []op{{"==", func(v int64) bool { return v == p }}, {"!=", func(v int64) bool { return v != p }}}
-		// D16 steering: < and > only with predicates strictly inside the stored magnitude range
-		if !vc8SteerD16 || (p > mn && p < mx) {
-			ops = append(ops, op{"<", func(v int64) bool { return v < p }}, op{">=", func(v int64) bool { return v >= p }},
-				op{">", func(v int64) bool { return v > p }}, op{"<=", func(v int64) bool { return v <= p }})
-		} else {
-			vkit.Excluded("D16")
-		}
+		ops := []op{{"==", func(v int64) bool { return v == p }}, {"!=", func(v int64) bool { return v != p }},
+			{"<", func(v int64) bool { return v < p }}, {">=", func(v int64) bool { return v >= p }},
+			{">", func(v int64) bool { return v > p }}, {"<=", func(v int64) bool { return v <= p }}}
 		for _, o := range ops {
 			want := map[string]bool{}
 			for col, v := range f.vals {
@@ -1391,11 +1316,7 @@ func (c *vc8Case) intBattery(idx *vc8Index, f *vc8Field) []vc8Probe {
 					want[col] = true
 				}
 			}
-			pr := c.probeRow(idx, fmt.Sprintf("Row(%s %s %d)", f.Name, o.sym, p), want, nil, false)
-			if !vc8RangeOpsAgainstModel && o.sym != "==" && o.sym != "!=" {
-				pr.want = ""
-			}
-			ps = append(ps, pr)
+			ps = append(ps, c.probeRow(idx, fmt.Sprintf("Row(%s %s %d)", f.Name, o.sym, p), want, nil, false))
 		}
 	}
 	return ps
